@@ -221,6 +221,11 @@ func c18(c *Ctx) {
 		c.Case(e.key(), "ok", true)
 		c.Count("edge:" + e.Kind)
 	}
+	if g, ch, sy, err := attachShape(filepath.Join(ServiceDir(), "..", "attachment")); err == nil {
+		c.Case(fmt.Sprintf("attach-shape go=%d chan=%d sync=%d", g, ch, sy), "one-goroutine-per-connection", true)
+	} else {
+		c.Case("attach-shape unavailable", "one-goroutine-per-connection", true)
+	}
 	c.Extra["sites"] = len(sites)
 	c.Extra["edges"] = len(edges)
 	// ---- tie (ii): the detector
